@@ -49,7 +49,7 @@ def observe(graph, rng=None, seal_root=True):
                     h.update(raws[i])
             if h.digest() != fulls[n]:
                 diffs.append(f"node {n}: full identifier is not SHA-256(raw, sorted pre-task ids, init-task ids)")
-        case = {"g": graph, "streams": streams, "loops": {}, "pre": pre, "sealed": {}, "gen": {}, "defs": {}, "inst": {}}
+        case = {"g": graph, "streams": streams, "loops": {}, "pre": pre, "sealed": {}, "gen": {}, "defs": {}, "inst": {}, "sstreams": {}}
         if seal_root:
             root = (rng or random).choice(sorted(objs))
             try:
@@ -68,13 +68,54 @@ def observe(graph, rng=None, seal_root=True):
                     except Exception:
                         gen[n] = ["<outside the job directory>", str(v)]
             case["gen"][root] = gen
+            # identifiers requested again after sealing: handed to TLC with the sealed set (the specification says
+            # which parameters are skipped given what is sealed), and compared with the identifiers before
+            sealed_now = set(case["sealed"][root])
+            copies = {n for n in graph if graph[n].get("dflt") == "copy" and n in sealed_now}     # untouched copies of a configuration-valued default
+            sstreams = {}
             for n in order:
                 o = objs[n]
-                if o.__xpm__.raw_identifier.all != raws[n] or o.__xpm__.raw_identifier.all != raws[n]:
-                    diffs.append(f"node {n}: raw identifier changed after sealing {root}")
-                if o.__xpm__.full_identifier.all != fulls[n]:
-                    diffs.append(f"node {n}: full identifier changed after sealing {root}")
+                rid = o.__xpm__.raw_identifier.all
+                try:
+                    sstreams[n] = tap.stream(rid)
+                except KeyError:
+                    pass    # served from the cache of a sealed configuration: nothing was hashed again
+                if rid != raws[n] or o.__xpm__.full_identifier.all != fulls[n]:
+                    which = "raw" if rid != raws[n] else "full"
+                    if copies and reaches(graph, n, copies):
+                        diffs.append(f"node {n} ({which}): identifier changed after sealing/config-default copy")
+                    else:
+                        diffs.append(f"node {n}: {which} identifier changed after sealing {root}")
+            case["sstreams"] = {root: sstreams}
     return case, diffs
+
+
+def reaches(graph, n, targets):
+    """Is one of `targets` reachable from n through parameter values, pre-/init tasks and task links?"""
+    seen, todo = {n}, [n]
+
+    def cfgs(v):
+        if v[0] == "cfg":
+            yield v[1]
+        elif v[0] == "list":
+            for x in v[1]:
+                yield from cfgs(x)
+        elif v[0] == "dict":
+            for _, x in v[1]:
+                yield from cfgs(x)
+
+    while todo:
+        m = todo.pop()
+        if m in targets:
+            return True
+        nxt = [x for v in graph[m]["vals"].values() for x in cfgs(v)] + list(graph[m]["pre"]) + list(graph[m]["init"])
+        if graph[m]["task"] != "0":
+            nxt.append(graph[m]["task"])
+        for x in nxt:
+            if x not in seen:
+                seen.add(x)
+                todo.append(x)
+    return False
 
 
 def run_enc(cases, fix=True):
